@@ -799,7 +799,7 @@ fn step<'f>(s: &mut Sess, fs: &'f Fs, hs: &mut Vec<Option<H<'f>>>, op: &Op) {
     }
     // handle-referencing ops on empty / wrong slots are skipped (keeps every subsequence runnable)
     let handle_ok = match op {
-        Op::Read { h, .. } | Op::Write { h, .. } | Op::Seek { h, .. } | Op::Truncate { h } | Op::Flush { h } | Op::SetTimes { h, .. } => {
+        Op::Read { h, .. } | Op::Write { h, .. } | Op::Seek { h, .. } | Op::Truncate { h } | Op::Extents { h } | Op::Flush { h } | Op::SetTimes { h, .. } => {
             matches!(s.model.handles.get(*h), Some(Some(MH::File { .. })))
         }
         Op::Close { h } => matches!(s.model.handles.get(*h), Some(Some(_))),
@@ -1139,6 +1139,18 @@ pub fn exec<'f>(fs: &'f Fs, hs: &mut Vec<Option<H<'f>>>, op: &Op, op_id: u64, mo
                 if let Err(e) = f.truncate() {
                     fail!(e);
                 }
+            }
+        }
+        Op::Extents { h } => {
+            if let Some(Some(H::F(f))) = hs.get_mut(*h) {
+                let mut total = 0u64;
+                for e in f.extents() {
+                    match e {
+                        Ok(x) => total += u64::from(x.size),
+                        Err(e) => fail!(e),
+                    }
+                }
+                out.n = total;
             }
         }
         Op::Flush { h } => {
